@@ -57,6 +57,11 @@ static RHANDLES: Mutex<Option<HashMap<usize, RHandle>>> = Mutex::new(None);
 /// real value by one entry, never lead it) — readable without the reload lock
 static VALUES: Mutex<Option<HashMap<usize, Vec<Vec<u8>>>>> = Mutex::new(None);
 static LOST: Mutex<Vec<String>> = Mutex::new(Vec::new());
+/// how many of a collector's values belong to reloads that have RETURNED (an emission that starts while a reload is still
+/// between its assignment and its return may be judged by the value before it)
+static SETTLED: Mutex<Option<HashMap<usize, usize>>> = Mutex::new(None);
+fn settled(c: usize) -> usize { SETTLED.lock().unwrap().as_ref().and_then(|m| m.get(&c).copied()).unwrap_or(1) }
+fn settle(c: usize) { let n = values_len(c); let mut g = SETTLED.lock().unwrap(); let m = g.get_or_insert_with(HashMap::new); let e = m.entry(c).or_insert(1); if n > *e { *e = n; } }
 fn values_len(c: usize) -> usize { VALUES.lock().unwrap().as_ref().and_then(|m| m.get(&c).map(|v| v.len())).unwrap_or(0) }
 fn push_value(c: usize, v: Vec<u8>) { VALUES.lock().unwrap().get_or_insert_with(HashMap::new).entry(c).or_default().push(v); }
 impl Base {
@@ -176,7 +181,7 @@ fn run_thread(t: usize, prog: Vec<Vec<String>>, dflt: Option<Dispatch>, dflt_id:
                     // a reloadable default collector: an emission racing with reloads is judged by one of the values the
                     // collector has between its start and its end — if they ALL accept it, it must be delivered
                     let watch = dflt_id.filter(|c| values_len(*c) > 0);
-                    let (from, before) = match watch { Some(c) => (values_len(c).saturating_sub(1), LOG.lock().unwrap().iter().filter(|x| **x == c).count()), None => (0, 0) };
+                    let (from, before) = match watch { Some(c) => (settled(c).saturating_sub(1), LOG.lock().unwrap().iter().filter(|x| **x == c).count()), None => (0, 0) };
                     pool::hit(cs);
                     if let Some(c) = watch {
                         let after = LOG.lock().unwrap().iter().filter(|x| **x == c).count();
@@ -211,6 +216,7 @@ fn run_thread(t: usize, prog: Vec<Vec<String>>, dflt: Option<Dispatch>, dflt_id:
                     } else {
                         let _ = h.modify(|l| { *l = SpecLayer(v, hint); push_value(c, v2); });
                     }
+                    settle(c);
                 }
                 "sgd" => {
                     let c: usize = op[1].parse().unwrap();
